@@ -112,9 +112,27 @@ def phase_b(mod_names: List[str], key: str, index: int, name: str, replay: str):
     return out
 
 
+def phase_c(mod_names: List[str], key: str, index: int, name: str):
+    """last resort, run alone (no CPU contention): one open VC with a long budget, so verdicts do not flip on a busy machine."""
+    reg = _registry(mod_names)
+    c = reg.contracts[key]
+    S = Sorts()
+    vcs, _ = generate_vcs(reg, c, S)
+    if index >= len(vcs) or vcs[index].name != name:
+        return {"status": "unknown", "detail": "regenerated VC list differs"}
+    vc = vcs[index]
+    goal = z3.BoolVal(False) if vc.formula is False else vc.formula
+    for (mb, ms) in ((False, 40000), (True, 80000)):
+        r, dt, _, _ = z3_check(S, vc.pc, goal, ms, mbqi=mb)
+        if r == "unsat":
+            return {"status": "unsat", "backend": "z3(solo%s)" % ("" if mb else ",e-matching"), "seconds": dt, "detail": "solo retry: unsat"}
+    return {"status": "unknown", "seconds": dt, "detail": "solo retry: %s" % r}
+
+
 def verify_all(mod_names: List[str], keys: List[str], workers: int = 16, timeout_ms: int = 30000, replays: Dict[str, str] = None):
     out = {}
     replays = replays or {}
+    workers = max(2, min(workers, os.cpu_count() or 2))
     with ProcessPoolExecutor(max_workers=workers) as ex:
         futs = {k: ex.submit(phase_a, mod_names, k, timeout_ms) for k in keys}
         for k, f in futs.items():
@@ -139,6 +157,22 @@ def verify_all(mod_names: List[str], keys: List[str], workers: int = 16, timeout
                 x["status"] = b["status"]
                 x["backend"] = b["backend"] or x["backend"]
                 x["confirmed"] = b["confirmed"]
+    # phase C: whatever is still open is retried alone, sequentially (at most a handful: a broken tree fails many VCs, and
+    # those need no retry once one of them has a confirmed counterexample)
+    still = [(k, x) for k in keys if out[k]["status"] == "ok" for x in out[k]["results"] if x["status"] not in ("unsat", "sat")]
+    any_confirmed = any(x.get("confirmed") for k in keys if out[k]["status"] == "ok" for x in out[k]["results"])
+    if still and not any_confirmed and len(still) <= 6:
+        with ProcessPoolExecutor(max_workers=1) as ex1:
+            for (k, x) in still:
+                try:
+                    cres = ex1.submit(phase_c, mod_names, k, x["index"], x["name"]).result()
+                except Exception:
+                    cres = {"status": "unknown", "detail": "phase C crashed"}
+                x["detail"] += "; " + cres.get("detail", "")
+                x["seconds"] += cres.get("seconds", 0.0)
+                if cres["status"] == "unsat":
+                    x["status"] = "unsat"
+                    x["backend"] = cres["backend"]
     return out
 
 
